@@ -187,6 +187,18 @@ func c19Schedules() *sup.Space {
 		for _, o := range tp.ops {
 			names = append(names, o.Name)
 		}
+		w.SetCase(c19SchedCase{tp.shape, names, []int{}})
+		// the process has served a stranger before (an authorizer with patterns and strings of its
+		// own): what it left behind, if anything, must not matter to anyone
+		seq(func() {
+			if s, err := c19ops.MakeShared(sh); err == nil {
+				for _, o := range c19ops.Ops {
+					if o.Expect != "" {
+						o.Run(s, 99)
+					}
+				}
+			}
+		})
 		// what each goroutine obtains running alone
 		alone := make([]string, len(tp.ops))
 		for i, o := range tp.ops {
@@ -199,6 +211,11 @@ func c19Schedules() *sup.Space {
 					alone[i] = o.Run(s, i+1)
 				}
 			})
+			if err == nil && o.Expect != "" && alone[i] != o.Expect {
+				w.Class("result-differs")
+				w.Violate("C19:result-alone-is-not-what-the-content-implies:"+o.Name, fmt.Sprintf("%s (as goroutine %d) on %s, alone, in a process that ran other authorizations before", o.Name, i+1, sh), shortStr(alone[i]), o.Expect)
+				return
+			}
 			if err != nil || len(x.Panics) > 0 || len(x.Stranded) > 0 {
 				w.Violate("C19:operation-fails-alone:"+o.Name, fmt.Sprintf("%s on %s", o.Name, sh), fmt.Sprint(err, x.Panics, x.Stranded), "a result")
 				return
